@@ -28,6 +28,8 @@ func checkC09(r *core.Run) {
 	r.Assume("A-sig: sao-did VerifyJWS rejects unless the DID part of the signature's kid equals the DID the manager was created with (proposal.Owner), and verifies the signature over the given payload with the keys of the document the resolver returns for the kid's version id (read in sao-did v0.0.12: did.go VerifyJWS, sid/sid_resolver.go Resolve)")
 	r.Rule("G-sigdoc: the sid-document lookup that verifySignature hands to the DID library returns a document only for a version id that is an element of the claimed owner's own SidDocumentVersion list (otherwise anybody verifies as any sid DID with a document of his own)")
 	ruleSigDoc(r)
+	r.Rule("T-msg-immutable: in the sao message handlers the slice fields of the signed request are never written in place — element stores, copy, sort — directly or through append(field, ...), which may share the field's backing array (what is stored must be what the owner signed)")
+	ruleNoInPlace(r, "T-msg-immutable", "msg", "sao/keeper.")
 	r.Rule("G-sigpath: verifySignature returns success only after VerifyJWS succeeded on that path, with a payload derived from the proposal argument's bytes")
 	ruleSigPath(r)
 	ruleSigOwner(r)
